@@ -49,7 +49,7 @@ func seriesDomain() []string {
 
 // op is one step of the dataset construction.
 type op struct {
-	Kind   string       `json:"kind"` // "write" | "snap"
+	Kind   string       `json:"kind"` // "write" | "snap" | "wide" (writes the series of dataset.Wide, see wide_test.go)
 	Points []gen.WPoint `json:"points,omitempty"`
 	Hour   int          `json:"hour,omitempty"` // snap: index of the shard-group window
 }
@@ -61,6 +61,9 @@ type dataset struct {
 	Series  []string `json:"series"`
 	Fields  []string `json:"fields"`
 	Ops     []op     `json:"ops"`
+	// Wide, when set, describes several hundred additional series (compact, expanded by
+	// wideSpec.points); they are written by the op of kind "wide".
+	Wide *wideSpec `json:"wide,omitempty"`
 }
 
 func (d *dataset) render() string {
@@ -69,6 +72,10 @@ func (d *dataset) render() string {
 	for _, o := range d.Ops {
 		if o.Kind == "snap" {
 			fmt.Fprintf(&sb, "snap%d;", o.Hour)
+			continue
+		}
+		if o.Kind == "wide" {
+			sb.WriteString(d.Wide.render() + ";")
 			continue
 		}
 		sb.WriteString("w")
@@ -197,6 +204,9 @@ func buildDataset(d *dataset) (*built, error) {
 	}
 	b.s = s
 	for i, o := range d.Ops {
+		if o.Kind == "wide" {
+			o = op{Kind: "write", Points: d.Wide.points(d)}
+		}
 		switch o.Kind {
 		case "write":
 			var pts []models.Point
